@@ -5,7 +5,9 @@ Every theorem below is about the definitions in `Generated/MaterialLaws.lean`, w
 /verif/translate/translate.py regenerates from the CURRENT source of
   src/pylife/materiallaws/{rambgood.py, hookeslaw.py, true_stress_strain.py}
 on every `./check C16` (instantiated at `α := ℝ` through `Proofs.RealNum`).  Editing a coefficient in the
-Python source changes the generated definition and these proofs stop compiling.
+Python source changes the generated definition and these proofs stop compiling.  The proofs reach the generated
+definitions only through the interface lemmas of `Proofs/Lemmas/MaterialLawsGen.lean` (`gen_bridge`: unfold everything
+generated, normalise spellings, close as an identity of fields), so a harmless respelling of the source keeps them valid.
 `Generated.MaterialLawsStatus` fails to build when the translator could not translate a whitelisted
 function (a broken proof obligation).
 
@@ -114,8 +116,7 @@ theorem ro_modulus_is_reciprocal {E K n : ℝ} (hE : 0 < E) (hK : 0 < K) (hn0 : 
     RambergOsgood.tangential_modulus E K n σ * RambergOsgood.tangential_compliance E K n σ = 1 := by
   have hpos : 0 < RambergOsgood.tangential_compliance E K n σ := by
     rw [ro_compliance_eq_compl hK.ne' hn0.ne']; exact compl_pos hE hK (by positivity)
-  have hm : RambergOsgood.tangential_modulus E K n σ = (RambergOsgood.tangential_compliance E K n σ)⁻¹ := by
-    simp only [RambergOsgood.tangential_modulus, lit_one, one_div] <;> ring
+  have hm := ro_modulus_eq E K n σ
   exact ⟨hpos, hm, by rw [hm, inv_mul_cancel₀ hpos.ne']⟩
 
 theorem ro_modulus_is_derivative_of_stress {E K n : ℝ} (hE : 0 < E) (hK : 0 < K) (hn0 : 0 < n) (hn1 : n < 1)
@@ -164,12 +165,11 @@ theorem lower_hysteresis_meets_curve (E K n σmax : ℝ) :
     RambergOsgood.lower_hysteresis E K n σmax σmax = RambergOsgood.strain E K n σmax ∧
     RambergOsgood.lower_hysteresis E K n (-σmax) σmax = -RambergOsgood.strain E K n σmax ∧
     (∀ σ, RambergOsgood.lower_hysteresis_raises E K n σ σmax = false ↔ σ ≤ σmax) := by
-  refine ⟨?_, ?_, fun σ => ?_⟩
+  refine ⟨?_, ?_, fun σ => ro_lower_hysteresis_guard E K n σ σmax⟩
   · rw [ro_lower_hysteresis_eq, masing_delta_is_doubled, ro_strain_eq_curve]
     simp
   · rw [ro_lower_hysteresis_eq, masing_delta_is_doubled, ro_strain_eq_curve]
     rw [show (σmax - -σmax) / 2 = σmax by ring]; ring
-  · simp [RambergOsgood.lower_hysteresis_raises]
 
 example : RambergOsgood.lower_hysteresis (206000:ℝ) 1184 0.187 400 400 = RambergOsgood.strain 206000 1184 0.187 400 :=
   (lower_hysteresis_meets_curve _ _ _ _).1
@@ -177,13 +177,17 @@ example : RambergOsgood.lower_hysteresis_raises (206000:ℝ) 1184 0.187 400 400 
   ((lower_hysteresis_meets_curve _ _ _ _).2.2 400).mpr le_rfl
 
 /-! ## Hooke's law.  Parameter range: E > 0, -1 < ν < 1/2 (open interval: at ν = -1 the shear modulus and
-at ν = 1/2 the bulk modulus divide by zero; the constructor accepts the closed interval). -/
+at ν = 1/2 the bulk modulus divide by zero; the constructor accepts the closed interval).
 
+The proofs rewrite the generated functions into the textbook model (`Model/MaterialLaws.lean`) with the interface
+lemmas and then compute in the textbook model. -/
+
+open PylifeVerif.MaterialLaws in
 /-- 1D: both round trips -/
 theorem hooke1d_stress_strain_id {E : ℝ} (hE : 0 < E) (x : ℝ) :
     HookesLaw1d.stress E (HookesLaw1d.strain E x) = x ∧ HookesLaw1d.strain E (HookesLaw1d.stress E x) = x := by
   have := hE.ne'
-  simp only [HookesLaw1d.stress, HookesLaw1d.strain, HookesLaw1d.attr_E]
+  simp only [hooke1d_stress_eq, hooke1d_strain_eq, hooke1dStress, hooke1dStrain]
   constructor <;> field_simp
 
 example : HookesLaw1d.stress (206000:ℝ) (HookesLaw1d.strain 206000 350) = 350 :=
@@ -193,24 +197,29 @@ example : HookesLaw1d.stress (206000:ℝ) (HookesLaw1d.strain 206000 350) = 350 
 theorem hooke_init_guard (E nu : ℝ) :
     (HookesLaw3d.init_raises E nu = false ↔ (-1 ≤ nu ∧ nu ≤ 1 / 2)) ∧
     (HookesLaw2dPlaneStress.init_raises E nu = false ↔ (-1 ≤ nu ∧ nu ≤ 1 / 2)) ∧
-    (HookesLaw2dPlaneStrain.init_raises E nu = false ↔ (-1 ≤ nu ∧ nu ≤ 1 / 2)) := by
-  simp [HookesLaw3d.init_raises, HookesLaw3d._validateinit_raises, HookesLaw2dPlaneStress.init_raises,
-    HookesLaw2dPlaneStress._validateinit_raises, HookesLaw2dPlaneStrain.init_raises,
-    HookesLaw2dPlaneStrain._validateinit_raises, lit_one, lit_two]
+    (HookesLaw2dPlaneStrain.init_raises E nu = false ↔ (-1 ≤ nu ∧ nu ≤ 1 / 2)) :=
+  hooke_init_guard_eq E nu
 
 example : HookesLaw3d.init_raises (206000:ℝ) 0.3 = false :=
   (hooke_init_guard _ _).1.mpr (by norm_num)
 
+open PylifeVerif.MaterialLaws in
 /-- shear and bulk modulus follow from E and ν (all three classes) -/
 theorem hooke_moduli (E nu : ℝ) :
     HookesLaw3d.attr_G E nu = E / (2 * (1 + nu)) ∧ HookesLaw3d.attr_K E nu = E / (3 * (1 - 2 * nu)) ∧
     HookesLaw2dPlaneStress.attr_G E nu = E / (2 * (1 + nu)) ∧ HookesLaw2dPlaneStress.attr_K E nu = E / (3 * (1 - 2 * nu)) ∧
     HookesLaw2dPlaneStrain.attr_G E nu = E / (2 * (1 + nu)) ∧ HookesLaw2dPlaneStrain.attr_K E nu = E / (3 * (1 - 2 * nu)) := by
-  simp only [HookesLaw3d.attr_G, HookesLaw3d.attr_K, HookesLaw2dPlaneStress.attr_G, HookesLaw2dPlaneStress.attr_K,
-    HookesLaw2dPlaneStrain.attr_G, HookesLaw2dPlaneStrain.attr_K, lit_one, lit_two, lit_three, and_self]
+  obtain ⟨g1, g2, g3⟩ := hooke_G_eq E nu
+  obtain ⟨k1, k2, k3⟩ := hooke_K_eq E nu
+  simp only [g1, g2, g3, k1, k2, k3, shearModulus, bulkModulus, lit_one, lit_two, lit_three, and_self]
 
 example : HookesLaw3d.attr_G (206000:ℝ) 0.3 = 206000 / (2 * (1 + 0.3)) := (hooke_moduli _ _).1
 
+/-- closes the components of a Hooke identity in the textbook model -/
+macro "hooke_textbook" : tactic => `(tactic|
+  ((repeat' apply And.intro) <;> first | trivial | (field_simp; done) | (field_simp; ring)))
+
+open PylifeVerif.MaterialLaws in
 /-- 3D: stress(strain(s)) = s and strain(stress(e)) = e, componentwise -/
 theorem hooke3d_stress_strain_id {E nu : ℝ} (hE : 0 < E) (h1 : -1 < nu) (h2 : nu < 1 / 2)
     (a b c d e f : ℝ) :
@@ -218,18 +227,17 @@ theorem hooke3d_stress_strain_id {E nu : ℝ} (hE : 0 < E) (h1 : -1 < nu) (h2 : 
      HookesLaw3d.stress E nu ε.1 ε.2.1 ε.2.2.1 ε.2.2.2.1 ε.2.2.2.2.1 ε.2.2.2.2.2 = (a, b, c, d, e, f)) ∧
     (let σ := HookesLaw3d.stress E nu a b c d e f
      HookesLaw3d.strain E nu σ.1 σ.2.1 σ.2.2.1 σ.2.2.2.1 σ.2.2.2.2.1 σ.2.2.2.2.2 = (a, b, c, d, e, f)) := by
-  have hE' := hE.ne'
-  have h3 : 1 + nu ≠ 0 := by linarith
-  have h4 : 1 - 2 * nu ≠ 0 := by linarith
-  have h4' : 1 - nu * 2 ≠ 0 := by linarith
-  simp only [HookesLaw3d.strain, HookesLaw3d.stress, HookesLaw3d.attr_E, HookesLaw3d.attr_nu, HookesLaw3d.attr_G,
+  have s := hookeSide hE h1 h2
+  obtain ⟨hE', h3, h4, h6, h6', h5, h5', h7, h8, h9, h10⟩ := hookeSide hE h1 h2
+  simp only [hooke3d_strain_eq s, hooke3d_stress_eq s, hooke3dStrain, hooke3dStress, shearModulus,
     lit_one, lit_two, Prod.mk.injEq]
-  refine ⟨⟨?_, ?_, ?_, ?_, ?_, ?_⟩, ⟨?_, ?_, ?_, ?_, ?_, ?_⟩⟩ <;> first | trivial | (field_simp; done) | (field_simp; ring)
+  hooke_textbook
 
 example : (let ε := HookesLaw3d.strain (206000:ℝ) 0.3 100 (-50) 20 10 0 5
      HookesLaw3d.stress 206000 0.3 ε.1 ε.2.1 ε.2.2.1 ε.2.2.2.1 ε.2.2.2.2.1 ε.2.2.2.2.2 = (100, -50, 20, 10, 0, 5)) :=
   (hooke3d_stress_strain_id (by norm_num) (by norm_num) (by norm_num) _ _ _ _ _ _).1
 
+open PylifeVerif.MaterialLaws in
 /-- 3D: mean stress = bulk modulus × volumetric strain; a pure shear state written in rotated axes
 (s11 = τ, s22 = -τ) strains with the SAME shear modulus (isotropy: G = E/(2(1+ν)) is consistent). -/
 theorem hooke3d_moduli_consistent {E nu : ℝ} (hE : 0 < E) (h1 : -1 < nu) (h2 : nu < 1 / 2)
@@ -238,18 +246,17 @@ theorem hooke3d_moduli_consistent {E nu : ℝ} (hE : 0 < E) (h1 : -1 < nu) (h2 :
      (σ.1 + σ.2.1 + σ.2.2.1) / 3 = HookesLaw3d.attr_K E nu * (a + b + c)) ∧
     (let ε := HookesLaw3d.strain E nu τ (-τ) 0 0 0 0
      ε.1 - ε.2.1 = τ / HookesLaw3d.attr_G E nu) := by
-  have hE' := hE.ne'
-  have h3 : 1 + nu ≠ 0 := by linarith
-  have h4 : 1 - 2 * nu ≠ 0 := by linarith
-  have h4' : 1 - nu * 2 ≠ 0 := by linarith
-  simp only [HookesLaw3d.strain, HookesLaw3d.stress, HookesLaw3d.attr_E, HookesLaw3d.attr_nu, HookesLaw3d.attr_G,
-    HookesLaw3d.attr_K, lit_one, lit_two, lit_three]
-  constructor <;> first | trivial | (field_simp; done) | (field_simp; ring)
+  have s := hookeSide hE h1 h2
+  obtain ⟨hE', h3, h4, h6, h6', h5, h5', h7, h8, h9, h10⟩ := hookeSide hE h1 h2
+  simp only [hooke3d_strain_eq s, hooke3d_stress_eq s, (hooke_G_eq E nu).1, (hooke_K_eq E nu).1, hooke3dStrain,
+    hooke3dStress, shearModulus, bulkModulus, lit_one, lit_two, lit_three]
+  hooke_textbook
 
 example : (let σ := HookesLaw3d.stress (206000:ℝ) 0.3 1 2 3 0 0 0
      (σ.1 + σ.2.1 + σ.2.2.1) / 3 = HookesLaw3d.attr_K 206000 0.3 * (1 + 2 + 3)) :=
   (hooke3d_moduli_consistent (by norm_num) (by norm_num) (by norm_num) _ _ _ 0 0 0 0).1
 
+open PylifeVerif.MaterialLaws in
 /-- plane stress: stress(strain(s)) = s; strain(stress(e)) = e with the out-of-plane strain
 e33 = -ν/(1-ν)·(e11+e22) -/
 theorem hooke_plane_stress_stress_strain_id {E nu : ℝ} (hE : 0 < E) (h1 : -1 < nu) (h2 : nu < 1 / 2)
@@ -258,21 +265,17 @@ theorem hooke_plane_stress_stress_strain_id {E nu : ℝ} (hE : 0 < E) (h1 : -1 <
      HookesLaw2dPlaneStress.stress E nu ε.1 ε.2.1 ε.2.2.2 = (a, b, c)) ∧
     (let σ := HookesLaw2dPlaneStress.stress E nu a b c
      HookesLaw2dPlaneStress.strain E nu σ.1 σ.2.1 σ.2.2 = (a, b, -nu / (1 - nu) * (a + b), c)) := by
-  have hE' := hE.ne'
-  have h3 : 1 + nu ≠ 0 := by linarith
-  have h4 : 1 - nu ≠ 0 := by linarith
-  have h5 : 1 - nu ^ 2 ≠ 0 := by
-    have : 1 - nu ^ 2 = (1 - nu) * (1 + nu) := by ring
-    rw [this]; exact mul_ne_zero h4 h3
-  simp only [HookesLaw2dPlaneStress.strain, HookesLaw2dPlaneStress.stress, HookesLaw2dPlaneStress.attr_E,
-    HookesLaw2dPlaneStress.attr_nu, HookesLaw2dPlaneStress.attr_G, HookesLaw2dPlaneStress.attr_Et,
-    HookesLaw2dPlaneStress.attr_nut, transc_pow, lit_one, lit_two, Real.rpow_two, Prod.mk.injEq]
-  refine ⟨⟨?_, ?_, ?_⟩, ⟨?_, ?_, ?_, ?_⟩⟩ <;> first | trivial | (field_simp; done) | (field_simp; ring)
+  have s := hookeSide hE h1 h2
+  obtain ⟨hE', h3, h4, h6, h6', h5, h5', h7, h8, h9, h10⟩ := hookeSide hE h1 h2
+  simp only [planeStress_strain_eq s, planeStress_stress_eq s, planeStressStrain, planeStressStress, shearModulus,
+    lit_one, lit_two, Prod.mk.injEq]
+  hooke_textbook
 
 example : (let ε := HookesLaw2dPlaneStress.strain (206000:ℝ) 0.3 100 (-50) 10
      HookesLaw2dPlaneStress.stress 206000 0.3 ε.1 ε.2.1 ε.2.2.2 = (100, -50, 10)) :=
   (hooke_plane_stress_stress_strain_id (by norm_num) (by norm_num) (by norm_num) _ _ _).1
 
+open PylifeVerif.MaterialLaws in
 /-- plane strain: stress(strain(s)) = s (in-plane components; s33 = ν(s11+s22)) and strain(stress(e)) = e -/
 theorem hooke_plane_strain_stress_strain_id {E nu : ℝ} (hE : 0 < E) (h1 : -1 < nu) (h2 : nu < 1 / 2)
     (a b c : ℝ) :
@@ -280,27 +283,17 @@ theorem hooke_plane_strain_stress_strain_id {E nu : ℝ} (hE : 0 < E) (h1 : -1 <
      HookesLaw2dPlaneStrain.stress E nu ε.1 ε.2.1 ε.2.2 = (a, b, nu * (a + b), c)) ∧
     (let σ := HookesLaw2dPlaneStrain.stress E nu a b c
      HookesLaw2dPlaneStrain.strain E nu σ.1 σ.2.1 σ.2.2.2 = (a, b, c)) := by
-  have hE' := hE.ne'
-  have h3 : 1 + nu ≠ 0 := by linarith
-  have h4 : 1 - nu ≠ 0 := by linarith
-  have h6 : 1 - 2 * nu ≠ 0 := by linarith
-  have h6' : 1 - nu * 2 ≠ 0 := by linarith
-  have h5 : 1 - nu ^ 2 ≠ 0 := by
-    have : 1 - nu ^ 2 = (1 - nu) * (1 + nu) := by ring
-    rw [this]; exact mul_ne_zero h4 h3
-  have h7 : (1 - nu) ^ 2 - nu ^ 2 ≠ 0 := by
-    have : (1 - nu) ^ 2 - nu ^ 2 = 1 - 2 * nu := by ring
-    rw [this]; exact h6
-  simp only [HookesLaw2dPlaneStrain.strain, HookesLaw2dPlaneStrain.stress, HookesLaw2dPlaneStrain.super_strain,
-    HookesLaw2dPlaneStrain.super_stress, HookesLaw2dPlaneStrain.attr_E,
-    HookesLaw2dPlaneStrain.attr_nu, HookesLaw2dPlaneStrain.attr_G, HookesLaw2dPlaneStrain.attr_Et,
-    HookesLaw2dPlaneStrain.attr_nut, transc_pow, lit_one, lit_two, Real.rpow_two, Prod.mk.injEq]
-  refine ⟨⟨?_, ?_, ?_, ?_⟩, ⟨?_, ?_, ?_⟩⟩ <;> first | trivial | (field_simp; done) | (field_simp; ring)
+  have s := hookeSide hE h1 h2
+  obtain ⟨hE', h3, h4, h6, h6', h5, h5', h7, h8, h9, h10⟩ := hookeSide hE h1 h2
+  simp only [planeStrain_strain_eq s, planeStrain_stress_eq s, planeStrainStrain, planeStrainStress, shearModulus,
+    lit_one, lit_two, Prod.mk.injEq]
+  hooke_textbook
 
 example : (let σ := HookesLaw2dPlaneStrain.stress (206000:ℝ) 0.3 0.001 (-0.0005) 0.0002
      HookesLaw2dPlaneStrain.strain 206000 0.3 σ.1 σ.2.1 σ.2.2.2 = (0.001, -0.0005, 0.0002)) :=
   (hooke_plane_strain_stress_strain_id (by norm_num) (by norm_num) (by norm_num) _ _ _).2
 
+open PylifeVerif.MaterialLaws in
 /-- plane strain = 3D law at zero out-of-plane strain (e33 = g13 = g23 = 0), including s33; and the 3D
 strain of the plane-strain stress state has e33 = 0 -/
 theorem plane_strain_eq_3d_at_e33_0 {E nu : ℝ} (hE : 0 < E) (h1 : -1 < nu) (h2 : nu < 1 / 2) (a b c : ℝ) :
@@ -308,28 +301,17 @@ theorem plane_strain_eq_3d_at_e33_0 {E nu : ℝ} (hE : 0 < E) (h1 : -1 < nu) (h2
      HookesLaw3d.stress E nu a b 0 c 0 0 = (σ.1, σ.2.1, σ.2.2.1, σ.2.2.2, 0, 0)) ∧
     (let ε := HookesLaw2dPlaneStrain.strain E nu a b c
      HookesLaw3d.strain E nu a b (nu * (a + b)) c 0 0 = (ε.1, ε.2.1, 0, ε.2.2, 0, 0)) := by
-  have hE' := hE.ne'
-  have h3 : 1 + nu ≠ 0 := by linarith
-  have h4 : 1 - nu ≠ 0 := by linarith
-  have h6 : 1 - 2 * nu ≠ 0 := by linarith
-  have h6' : 1 - nu * 2 ≠ 0 := by linarith
-  have h5 : 1 - nu ^ 2 ≠ 0 := by
-    have : 1 - nu ^ 2 = (1 - nu) * (1 + nu) := by ring
-    rw [this]; exact mul_ne_zero h4 h3
-  have h7 : (1 - nu) ^ 2 - nu ^ 2 ≠ 0 := by
-    have : (1 - nu) ^ 2 - nu ^ 2 = 1 - 2 * nu := by ring
-    rw [this]; exact h6
-  simp only [HookesLaw2dPlaneStrain.strain, HookesLaw2dPlaneStrain.stress, HookesLaw2dPlaneStrain.super_strain,
-    HookesLaw2dPlaneStrain.super_stress, HookesLaw2dPlaneStrain.attr_E,
-    HookesLaw2dPlaneStrain.attr_nu, HookesLaw2dPlaneStrain.attr_G, HookesLaw2dPlaneStrain.attr_Et,
-    HookesLaw2dPlaneStrain.attr_nut, HookesLaw3d.strain, HookesLaw3d.stress, HookesLaw3d.attr_E,
-    HookesLaw3d.attr_nu, HookesLaw3d.attr_G, transc_pow, lit_one, lit_two, Real.rpow_two, Prod.mk.injEq]
-  refine ⟨⟨?_, ?_, ?_, ?_, ?_, ?_⟩, ⟨?_, ?_, ?_, ?_, ?_, ?_⟩⟩ <;> first | trivial | (field_simp; done) | (field_simp; ring)
+  have s := hookeSide hE h1 h2
+  obtain ⟨hE', h3, h4, h6, h6', h5, h5', h7, h8, h9, h10⟩ := hookeSide hE h1 h2
+  simp only [planeStrain_strain_eq s, planeStrain_stress_eq s, hooke3d_strain_eq s, hooke3d_stress_eq s,
+    planeStrainStrain, planeStrainStress, hooke3dStrain, hooke3dStress, shearModulus, lit_one, lit_two, Prod.mk.injEq]
+  hooke_textbook
 
 example : (let σ := HookesLaw2dPlaneStrain.stress (206000:ℝ) 0.3 0.001 (-0.0005) 0.0002
      HookesLaw3d.stress 206000 0.3 0.001 (-0.0005) 0 0.0002 0 0 = (σ.1, σ.2.1, σ.2.2.1, σ.2.2.2, 0, 0)) :=
   (plane_strain_eq_3d_at_e33_0 (by norm_num) (by norm_num) (by norm_num) _ _ _).1
 
+open PylifeVerif.MaterialLaws in
 /-- plane stress = 3D law at zero out-of-plane stress (s33 = s13 = s23 = 0), including e33; and the 3D
 stress of the plane-stress strain state (with its e33) has s33 = 0 -/
 theorem plane_stress_eq_3d_at_s33_0 {E nu : ℝ} (hE : 0 < E) (h1 : -1 < nu) (h2 : nu < 1 / 2) (a b c : ℝ) :
@@ -337,19 +319,11 @@ theorem plane_stress_eq_3d_at_s33_0 {E nu : ℝ} (hE : 0 < E) (h1 : -1 < nu) (h2
      HookesLaw3d.strain E nu a b 0 c 0 0 = (ε.1, ε.2.1, ε.2.2.1, ε.2.2.2, 0, 0)) ∧
     (let σ := HookesLaw2dPlaneStress.stress E nu a b c
      HookesLaw3d.stress E nu a b (-nu / (1 - nu) * (a + b)) c 0 0 = (σ.1, σ.2.1, 0, σ.2.2, 0, 0)) := by
-  have hE' := hE.ne'
-  have h3 : 1 + nu ≠ 0 := by linarith
-  have h4 : 1 - nu ≠ 0 := by linarith
-  have h6 : 1 - 2 * nu ≠ 0 := by linarith
-  have h6' : 1 - nu * 2 ≠ 0 := by linarith
-  have h5 : 1 - nu ^ 2 ≠ 0 := by
-    have : 1 - nu ^ 2 = (1 - nu) * (1 + nu) := by ring
-    rw [this]; exact mul_ne_zero h4 h3
-  simp only [HookesLaw2dPlaneStress.strain, HookesLaw2dPlaneStress.stress, HookesLaw2dPlaneStress.attr_E,
-    HookesLaw2dPlaneStress.attr_nu, HookesLaw2dPlaneStress.attr_G, HookesLaw2dPlaneStress.attr_Et,
-    HookesLaw2dPlaneStress.attr_nut, HookesLaw3d.strain, HookesLaw3d.stress, HookesLaw3d.attr_E,
-    HookesLaw3d.attr_nu, HookesLaw3d.attr_G, transc_pow, lit_one, lit_two, Real.rpow_two, Prod.mk.injEq]
-  refine ⟨⟨?_, ?_, ?_, ?_, ?_, ?_⟩, ⟨?_, ?_, ?_, ?_, ?_, ?_⟩⟩ <;> first | trivial | (field_simp; done) | (field_simp; ring)
+  have s := hookeSide hE h1 h2
+  obtain ⟨hE', h3, h4, h6, h6', h5, h5', h7, h8, h9, h10⟩ := hookeSide hE h1 h2
+  simp only [planeStress_strain_eq s, planeStress_stress_eq s, hooke3d_strain_eq s, hooke3d_stress_eq s,
+    planeStressStrain, planeStressStress, hooke3dStrain, hooke3dStress, shearModulus, lit_one, lit_two, Prod.mk.injEq]
+  hooke_textbook
 
 example : (let ε := HookesLaw2dPlaneStress.strain (206000:ℝ) 0.3 100 (-50) 10
      HookesLaw3d.strain 206000 0.3 100 (-50) 0 10 0 0 = (ε.1, ε.2.1, ε.2.2.1, ε.2.2.2, 0, 0)) :=
@@ -363,11 +337,9 @@ theorem true_strain_inverse :
     (∀ ε : ℝ, true_strain (Real.exp ε - 1) = ε) := by
   constructor
   · intro e he
-    simp only [true_strain, transc_log, lit_one]
-    rw [Real.exp_log (by linarith)]; ring
+    rw [true_strain_eq, Real.exp_log (by linarith)]; ring
   · intro ε
-    simp only [true_strain, transc_log, lit_one]
-    rw [show (1:ℝ) + (Real.exp ε - 1) = Real.exp ε by ring, Real.log_exp]
+    rw [true_strain_eq, show (1:ℝ) + (Real.exp ε - 1) = Real.exp ε by ring, Real.log_exp]
 
 example : Real.exp (true_strain (0.2:ℝ)) - 1 = 0.2 := true_strain_inverse.1 _ (by norm_num)
 
@@ -375,7 +347,7 @@ example : Real.exp (true_strain (0.2:ℝ)) - 1 = 0.2 := true_strain_inverse.1 _ 
 theorem true_stress_inverse (e : ℝ) (he : e ≠ -1) :
     (∀ s : ℝ, true_stress s e / (1 + e) = s) ∧ (∀ σ : ℝ, true_stress (σ / (1 + e)) e = σ) := by
   have h : 1 + e ≠ 0 := fun h => he (by linarith)
-  simp only [true_stress, lit_one]
+  simp only [true_stress_eq]
   constructor <;> intro x <;> field_simp
 
 example : true_stress (500:ℝ) 0.2 / (1 + 0.2) = 500 := (true_stress_inverse _ (by norm_num)).1 _
@@ -390,16 +362,13 @@ theorem true_fracture_inverse :
     (∀ F A Z : ℝ, A ≠ 0 → Z ≠ 1 → true_fracture_stress F A Z * (A * (1 - Z)) = F) ∧
     (∀ F A Z : ℝ, A ≠ 0 → Z ≠ 1 → true_fracture_stress F A Z = true_stress (F / A) (1 / (1 - Z) - 1)) := by
   refine ⟨fun Z hZ => ?_, fun ε => ?_, fun Z hZ => ?_, fun F A Z hA hZ => ?_, fun F A Z hA hZ => ?_⟩
-  · simp only [true_fracture_strain, transc_log, lit_one]
-    rw [one_div, Real.log_inv, neg_neg, Real.exp_log (by linarith)]; ring
-  · simp only [true_fracture_strain, transc_log, lit_one]
-    rw [show (1:ℝ) - (1 - Real.exp (-ε)) = Real.exp (-ε) by ring, one_div, Real.log_inv, Real.log_exp, neg_neg]
-  · simp only [true_fracture_strain, true_strain, transc_log, lit_one]
-    congr 1; ring
+  · rw [true_fracture_strain_eq, neg_neg, Real.exp_log (by linarith)]; ring
+  · rw [true_fracture_strain_eq, show (1:ℝ) - (1 - Real.exp (-ε)) = Real.exp (-ε) by ring, Real.log_exp, neg_neg]
+  · rw [true_fracture_strain_eq, true_strain_eq, show (1:ℝ) + (1 / (1 - Z) - 1) = (1 - Z)⁻¹ by ring, Real.log_inv]
   · have h : 1 - Z ≠ 0 := fun h => hZ (by linarith)
-    simp only [true_fracture_stress, lit_one]; field_simp
+    rw [true_fracture_stress_eq]; field_simp
   · have h : 1 - Z ≠ 0 := fun h => hZ (by linarith)
-    simp only [true_fracture_stress, true_stress, lit_one]; field_simp; ring
+    rw [true_fracture_stress_eq, true_stress_eq]; field_simp; ring
 
 example : 1 - Real.exp (-(true_fracture_strain (0.6:ℝ))) = 0.6 := true_fracture_inverse.1 _ (by norm_num)
 example : true_fracture_stress (1000:ℝ) 50 0.6 * (50 * (1 - 0.6)) = 1000 :=
@@ -425,23 +394,12 @@ theorem translated_eq_hand_model {E K n nu : ℝ} (hE : 0 < E) (hK : 0 < K) (hn0
     (∀ a b c, HookesLaw2dPlaneStress.stress E nu a b c = planeStressStress E nu a b c) ∧
     (∀ a b c, HookesLaw2dPlaneStrain.strain E nu a b c = planeStrainStrain E nu a b c) ∧
     (∀ a b c, HookesLaw2dPlaneStrain.stress E nu a b c = planeStrainStress E nu a b c) ∧
-    (∀ e, true_strain e = trueStrain e) ∧ (∀ s e, true_stress s e = trueStress s e) ∧
-    (∀ Z, true_fracture_strain Z = trueFractureStrain Z) ∧
-    (∀ F A Z, true_fracture_stress F A Z = trueFractureStress F A Z) := by
-  have hE' := hE.ne'
+    (∀ e : ℝ, true_strain e = trueStrain e) ∧ (∀ s e : ℝ, true_stress s e = trueStress s e) ∧
+    (∀ Z : ℝ, true_fracture_strain Z = trueFractureStrain Z) ∧
+    (∀ F A Z : ℝ, true_fracture_stress F A Z = trueFractureStress F A Z) := by
   have hK' := hK.ne'
   have hn' := hn0.ne'
-  have h3 : 1 + nu ≠ 0 := by linarith
-  have h4 : 1 - nu ≠ 0 := by linarith
-  have h6 : 1 - 2 * nu ≠ 0 := by linarith
-  have h6' : 1 - nu * 2 ≠ 0 := by linarith
-  have h5 : 1 - nu ^ 2 ≠ 0 := by
-    have : 1 - nu ^ 2 = (1 - nu) * (1 + nu) := by ring
-    rw [this]; exact mul_ne_zero h4 h3
-  have h5' : 1 - nu * nu ≠ 0 := by rw [← pow_two]; exact h5
-  have h7 : (1 - nu) ^ 2 - nu ^ 2 ≠ 0 := by
-    have : (1 - nu) ^ 2 - nu ^ 2 = 1 - 2 * nu := by ring
-    rw [this]; exact h6
+  have s := hookeSide hE h1 h2
   have hs : ∀ σ, RambergOsgood.strain E K n σ = roStrain E K n σ := fun σ => by
     rw [ro_strain_eq_curve]; simp only [curve, plast, roStrain, rsign_eq, transc_abs, transc_pow, lit_one]
   have hc : ∀ σ, RambergOsgood.tangential_compliance E K n σ = roCompliance E K n σ := fun σ => by
@@ -449,39 +407,16 @@ theorem translated_eq_hand_model {E K n nu : ℝ} (hE : 0 < E) (hK : 0 < K) (hn0
     simp only [C16L.compl, roCompliance, transc_abs, transc_pow, lit_one]; rw [div_div]
   have hd : ∀ σ, RambergOsgood.delta_strain E K n σ = roDeltaStrain E K n σ := fun σ => by
     rw [ro_delta_strain_eq, hs]; simp only [roDeltaStrain, lit_two]
-  refine ⟨hs, hc, fun σ => ?_, hd, fun σ m => ?_, fun x => ⟨?_, ?_⟩, ⟨?_, ?_⟩, fun a b c d e f => ?_,
-    fun a b c d e f => ?_, fun a b c => ?_, fun a b c => ?_, fun a b c => ?_, fun a b c => ?_,
-    fun e => rfl, fun s e => rfl, fun Z => rfl, fun F A Z => rfl⟩
+  refine ⟨hs, hc, fun σ => ?_, hd, fun σ m => ?_, fun x => ⟨hooke1d_stress_eq E x, hooke1d_strain_eq E x⟩,
+    ⟨(hooke_G_eq E nu).1, (hooke_K_eq E nu).1⟩, hooke3d_strain_eq s, hooke3d_stress_eq s, planeStress_strain_eq s,
+    planeStress_stress_eq s, planeStrain_strain_eq s, planeStrain_stress_eq s,
+    fun e => ?_, fun s e => ?_, fun Z => ?_, fun F A Z => ?_⟩
   · rw [(ro_modulus_is_reciprocal hE hK hn0 σ).2.1, hc]; simp only [roModulus, lit_one, one_div]
   · rw [ro_lower_hysteresis_eq, hs, hd]; rfl
-  · simp only [HookesLaw1d.stress, HookesLaw1d.attr_E, hooke1dStress] <;> ring
-  · simp only [HookesLaw1d.strain, HookesLaw1d.attr_E, hooke1dStrain] <;> ring
-  · simp only [HookesLaw3d.attr_G, shearModulus] <;> ring
-  · simp only [HookesLaw3d.attr_K, bulkModulus] <;> ring
-  · simp only [HookesLaw3d.strain, HookesLaw3d.attr_E, HookesLaw3d.attr_nu, HookesLaw3d.attr_G, hooke3dStrain,
-      shearModulus, lit_one, lit_two, Prod.mk.injEq]
-      <;> (repeat' apply And.intro) <;> first | trivial | (field_simp; done) | (field_simp; ring) | ring
-  · simp only [HookesLaw3d.stress, HookesLaw3d.attr_E, HookesLaw3d.attr_nu, HookesLaw3d.attr_G, hooke3dStress,
-      shearModulus, lit_one, lit_two, Prod.mk.injEq]
-      <;> (repeat' apply And.intro) <;> first | trivial | (field_simp; done) | (field_simp; ring) | ring
-  · simp only [HookesLaw2dPlaneStress.strain, HookesLaw2dPlaneStress.attr_E, HookesLaw2dPlaneStress.attr_nu,
-      HookesLaw2dPlaneStress.attr_G, HookesLaw2dPlaneStress.attr_Et, HookesLaw2dPlaneStress.attr_nut,
-      planeStressStrain, shearModulus, lit_one, lit_two, Prod.mk.injEq]
-      <;> (repeat' apply And.intro) <;> first | trivial | (field_simp; done) | (field_simp; ring) | ring
-  · simp only [HookesLaw2dPlaneStress.stress, HookesLaw2dPlaneStress.attr_E, HookesLaw2dPlaneStress.attr_nu,
-      HookesLaw2dPlaneStress.attr_G, HookesLaw2dPlaneStress.attr_Et, HookesLaw2dPlaneStress.attr_nut,
-      planeStressStress, shearModulus, transc_pow, lit_one, lit_two, Real.rpow_two, Prod.mk.injEq]
-      <;> (repeat' apply And.intro) <;> first | trivial | (field_simp; done) | (field_simp; ring) | ring
-  · simp only [HookesLaw2dPlaneStrain.strain, HookesLaw2dPlaneStrain.super_strain, HookesLaw2dPlaneStrain.attr_E,
-      HookesLaw2dPlaneStrain.attr_nu, HookesLaw2dPlaneStrain.attr_G, HookesLaw2dPlaneStrain.attr_Et,
-      HookesLaw2dPlaneStrain.attr_nut, planeStrainStrain, shearModulus, transc_pow, lit_one, lit_two,
-      Real.rpow_two, Prod.mk.injEq]
-      <;> (repeat' apply And.intro) <;> first | trivial | (field_simp; done) | (field_simp; ring) | ring
-  · simp only [HookesLaw2dPlaneStrain.stress, HookesLaw2dPlaneStrain.super_stress, HookesLaw2dPlaneStrain.attr_E,
-      HookesLaw2dPlaneStrain.attr_nu, HookesLaw2dPlaneStrain.attr_G, HookesLaw2dPlaneStrain.attr_Et,
-      HookesLaw2dPlaneStrain.attr_nut, planeStrainStress, shearModulus, transc_pow, lit_one, lit_two,
-      Real.rpow_two, Prod.mk.injEq]
-      <;> (repeat' apply And.intro) <;> first | trivial | (field_simp; done) | (field_simp; ring) | ring
+  · rw [true_strain_eq]; simp only [trueStrain, transc_log, lit_one]
+  · rw [true_stress_eq]; simp only [trueStress, lit_one]
+  · rw [true_fracture_strain_eq]; simp only [trueFractureStrain, transc_log, lit_one, one_div, Real.log_inv]
+  · rw [true_fracture_stress_eq]; simp only [trueFractureStress, lit_one]
 
 open PylifeVerif.MaterialLaws in
 example : HookesLaw2dPlaneStrain.stress (206000:ℝ) 0.3 0.001 (-0.0005) 0.0002
